@@ -172,8 +172,9 @@ KINDS = ['DocumentStart', 'DocumentEnd', 'BlockSequenceStart', 'BlockMappingStar
 
 
 def _mk_token(k, i):
-    m = Mark('x', i, 0, i, None, None)
-    m2 = Mark('x', i + 1, 0, i + 1, None, None)
+    # token i occupies [3i, 3i+2): there is a gap between consecutive tokens, as in real text
+    m = Mark('x', 3 * i, 0, 3 * i, None, None)
+    m2 = Mark('x', 3 * i + 2, 0, 3 * i + 2, None, None)
     name = pick(k, KINDS)
     if name == 'Alias':
         return AliasToken('a', m, m2)
@@ -207,7 +208,7 @@ class LazySource(Parser):
             elif i <= self.n:
                 self.cur = _mk_token(self.kinds[i - 1], i)
             elif i == self.n + 1:
-                m = Mark('x', i, 0, i, None, None)
+                m = Mark('x', 3 * i, 0, 3 * i, None, None)
                 self.cur = StreamEndToken(m, m)
             else:
                 self.cur = False
@@ -235,30 +236,133 @@ class LazySource(Parser):
         return None
 
 
-def parser_alone(n: int, k0: int, k1: int, k2: int, k3: int) -> str:
-    p = LazySource([k0, k1, k2, k3], n)
+def _run_parser(kind_names, symbolic_kinds, nsym):
+    """Feed the real Parser lazily with STREAM-START, the concrete prefix `kind_names`, `nsym`
+    symbolic tokens and STREAM-END.  -> (events, outcome, names) with outcome 'ok' or ('error', index
+    of the token the parser was looking at when it gave up)"""
+    class Src(LazySource):
+        def _cur(self):
+            if self.cur is None:
+                i = self.pos
+                if i == 0:
+                    m = Mark('x', 0, 0, 0, None, None)
+                    self.cur = StreamStartToken(m, m)
+                elif i <= len(kind_names):
+                    self.cur = _mk_token(KINDS.index(kind_names[i - 1]), i)
+                    self.names.append(kind_names[i - 1])
+                elif i <= len(kind_names) + nsym:
+                    k = symbolic_kinds[i - 1 - len(kind_names)]
+                    self.cur = _mk_token(k, i)
+                    self.names.append(pick(k, KINDS))
+                elif i == len(kind_names) + nsym + 1:
+                    m = Mark('x', 3 * i, 0, 3 * i, None, None)
+                    self.cur = StreamEndToken(m, m)
+                    self.names.append('StreamEnd')
+                else:
+                    self.cur = False
+            return self.cur
+    p = Src([], 0)
+    p.names = ['StreamStart']
     evs = []
     try:
         while p.check_event():
             evs.append(p.get_event())
-    except ParserError as e:
-        m = e.problem_mark
-        if m is not None and not (0 <= m.index <= n + 1):
-            return 'ERRMARK-RANGE'
-        return 'ok'
-    except Exception as e:
-        not_a_finding(e)
-        return fail(P, 'parser ' + exc_sig(e), n=n)
-    reach()
+    except ParserError:
+        return evs, ('error', p.pos), p
+    return evs, 'ok', p
+
+
+def _check_events_and_marks(evs, p):
     r = grammar.check_events([type(e).__name__ for e in evs])
     if r:
-        return fail(P, 'EVENT-GRAMMAR ' + r, n=n)
+        return 'EVENT-GRAMMAR ' + r
     if p.states or p.marks:
         return 'PARSER-STACKS not empty at STREAM-END'
     last = 0
     for e in evs:
         if e.start_mark.index < last or e.end_mark.index < e.start_mark.index:
-            return 'EVMARK-ORDER'
+            return 'EVMARK-ORDER %s starts at %d, ends at %d, previous event started at %d' % (type(e).__name__, e.start_mark.index, e.end_mark.index, last)
+        last = e.start_mark.index
+    return None
+
+
+def _dup_directive(names, ref, outcome):
+    # a duplicate %YAML directive is a content error found after the second directive token has been
+    # consumed: the parser's position is one token further than the reference's
+    return ref[1] < len(names) and names[ref[1]] == 'Directive' and outcome[1] == ref[1] + 1
+
+
+def parser_alone(n: int, k0: int, k1: int, k2: int, k3: int) -> str:
+    """every token sequence of length n between STREAM-START and STREAM-END: the parser accepts exactly
+    the sentences of the documented grammar, gives up at the first token that cannot continue one, and
+    what it emits is grammatical with ordered marks"""
+    try:
+        evs, outcome, p = _run_parser([], [k0, k1, k2, k3], n)
+    except Exception as e:
+        not_a_finding(e)
+        return fail(P, 'parser ' + exc_sig(e), n=n)
+    names = p.names
+    if outcome == 'ok':
+        reach()
+        ref = grammar.recognise(names)
+        if ref[0] != 'ok':
+            return fail(P, 'TOKEN-GRAMMAR the parser accepted a token sequence outside the documented grammar (first bad token %s)' % (ref[1],), n=n)
+        r = _check_events_and_marks(evs, p)
+        return fail(P, r, n=n) if r else 'ok'
+    # rejected: the reference must reject the tokens served so far at the same token
+    ref = grammar.recognise(names)
+    if ref[0] == 'ok':
+        return fail(P, 'TOKEN-GRAMMAR the parser rejected a sentence of the documented grammar', n=n)
+    if ref[1] != outcome[1] and not _dup_directive(names, ref, outcome):
+        return fail(P, 'TOKEN-GRAMMAR the parser gave up at token %d, the grammar is violated at token %d' % (outcome[1], ref[1]), n=n)
+    r = _check_events_and_marks(evs, p) if False else None
+    return 'ok'
+
+
+# concrete token prefixes that put the parser into each of its states; two free tokens follow
+PREFIXES = [
+    [], ['DocumentStart'], ['Directive'], ['Directive', 'DocumentStart'], ['Scalar'], ['Scalar', 'DocumentEnd'], ['DocumentStart', 'Scalar', 'DocumentEnd'],
+    ['Tag'], ['Anchor'], ['Tag', 'Anchor'], ['Anchor', 'Tag'],
+    ['BlockSequenceStart'], ['BlockSequenceStart', 'BlockEntry'], ['BlockSequenceStart', 'BlockEntry', 'Scalar'],
+    ['BlockMappingStart'], ['BlockMappingStart', 'Key'], ['BlockMappingStart', 'Key', 'Scalar'], ['BlockMappingStart', 'Key', 'Scalar', 'Value'],
+    ['BlockMappingStart', 'Key', 'Scalar', 'Value', 'Scalar'], ['BlockMappingStart', 'Key', 'BlockEntry'], ['BlockMappingStart', 'Key', 'Scalar', 'Value', 'BlockEntry'],
+    ['BlockMappingStart', 'Key', 'Scalar', 'Value', 'BlockEntry', 'Scalar'],
+    ['FlowSequenceStart'], ['FlowSequenceStart', 'Scalar'], ['FlowSequenceStart', 'Scalar', 'FlowEntry'], ['FlowSequenceStart', 'Key'],
+    ['FlowSequenceStart', 'Key', 'Scalar'], ['FlowSequenceStart', 'Key', 'Scalar', 'Value'], ['FlowSequenceStart', 'Key', 'Scalar', 'Value', 'Scalar'],
+    ['FlowSequenceStart', 'Key', 'Value'],
+    ['FlowMappingStart'], ['FlowMappingStart', 'Scalar'], ['FlowMappingStart', 'Scalar', 'FlowEntry'], ['FlowMappingStart', 'Key'],
+    ['FlowMappingStart', 'Key', 'Scalar'], ['FlowMappingStart', 'Key', 'Scalar', 'Value'], ['FlowMappingStart', 'Key', 'Scalar', 'Value', 'Scalar'],
+    ['FlowMappingStart', 'Key', 'Value'], ['FlowMappingStart', 'Key', 'Scalar', 'Value', 'Tag'],
+    ['BlockSequenceStart', 'BlockEntry', 'FlowMappingStart', 'Key', 'Scalar', 'Value'], ['FlowSequenceStart', 'FlowMappingStart', 'Key', 'Scalar', 'Value'],
+]
+
+
+def parser_state(pi: int, n: int, k0: int, k1: int, k2: int) -> str:
+    """one step (up to three tokens) of the parser from each of its states, reached by a concrete prefix"""
+    prefix = pick(pi, PREFIXES)
+    try:
+        evs, outcome, p = _run_parser(prefix, [k0, k1, k2], n)
+    except Exception as e:
+        not_a_finding(e)
+        return fail(P, 'parser ' + exc_sig(e), pi=pi)
+    names = p.names
+    ref = grammar.recognise(names)
+    if outcome == 'ok':
+        reach()
+        if ref[0] != 'ok':
+            return fail(P, 'TOKEN-GRAMMAR the parser accepted a token sequence outside the documented grammar (first bad token %s)' % (ref[1],), pi=pi)
+        r = _check_events_and_marks(evs, p)
+        return fail(P, r, pi=pi) if r else 'ok'
+    reach()
+    if ref[0] == 'ok':
+        return fail(P, 'TOKEN-GRAMMAR the parser rejected a sentence of the documented grammar', pi=pi)
+    if ref[1] != outcome[1] and not _dup_directive(names, ref, outcome):
+        return fail(P, 'TOKEN-GRAMMAR the parser gave up at token %d, the grammar is violated at token %d' % (outcome[1], ref[1]), pi=pi)
+    # the events produced before the error still carry ordered marks
+    last = 0
+    for e in evs:
+        if e.start_mark.index < last or e.end_mark.index < e.start_mark.index:
+            return fail(P, 'EVMARK-ORDER before the error', pi=pi)
         last = e.start_mark.index
     return 'ok'
 
@@ -344,6 +448,11 @@ def jobs(tier):
                       [lambda line, index, k0_line, k0_index, k0_tok, k0_req, k1_line, k1_index, k1_tok, k1_req, nkeys, taken, ntoks, _n=nk:
                        nkeys == _n and 0 <= ntoks <= 2],
                       budget=200, bounds='%d candidate key(s); line, index, token numbers, tokens_taken: ALL integers (unbounded); queue of 0..2 tokens' % nk))
+    for pi in range(len(PREFIXES)):
+        js.append(Job('parser-state/%d' % pi, parser_state,
+                      [lambda pi, n, k0, k1, k2, _p=pi: pi == _p and 0 <= n <= (2 if tier == 'quick' else 3) and 0 <= k0 < 18 and 0 <= k1 < 18 and 0 <= k2 < 18],
+                      budget=200 if tier == 'quick' else 1200,
+                      bounds='parser state reached by the prefix %s, then every sequence of <=%d tokens of the 18 kinds' % (' '.join(PREFIXES[pi]) or '(start)', 2 if tier == 'quick' else 3)))
     PN = 3 if tier == 'quick' else 4
     for k in range(18):
         js.append(Job('parser/%s' % KINDS[k], parser_alone,
